@@ -241,9 +241,31 @@ func (fm *FileModel) CompareRejects(w *World, m *skel.Method, field string, exp 
 		}
 		hit.used = true
 		r := hit.r
+		roundedOK := false
 		if e.Kind == "cmp" {
-			if r.Op != e.Op {
+			// a limit that was rounded before it was printed (integer fields): for a fractional limit b the reject set of
+			// "value < b" and of "value <= b" is the same, value < ceil(b) = value <= floor(b); symmetrically for the upper side.
+			// So a rounded limit is exact iff its direction and the operator pair up that way, whatever the exclusivity.
+			if dir := w.roundingOf(hit.hole); dir != "" {
+				want := map[string]string{"ceil<": "<", "floor<": "<=", "floor>": ">", "ceil>": ">="}[dir+e.Op[:1]]
+				switch {
+				case want != "" && r.Op == want:
+					roundedOK = true
+				case want != "":
+					issues = append(issues, Issue{Rule: "A-REJ:lossy", Construct: fmt.Sprintf("bound rounded with %s and compared with %s for %s", dir, r.Op, e.Kw), Site: siteOf(hit.hole),
+						Msg: fmt.Sprintf("%s: the fractional limit of %s is rounded with %s and the value is rejected when value %s rounded limit (`%s`); with that rounding only %s rejects exactly the values the schema rejects", what, e.Kw, dir, r.Op, r.Cond, want)})
+					if rejectsMore(r.Op, want) {
+						issues = append(issues, Issue{Rule: "A-OVERREJ", Construct: fmt.Sprintf("bound rounded with %s and compared with %s for %s", dir, r.Op, e.Kw), Site: siteOf(hit.hole),
+							Msg: fmt.Sprintf("%s: `%s` rejects the integer equal to the rounded limit of %s although the schema admits it (rounded with %s, so only %s is exact)", what, r.Cond, e.Kw, dir, want)})
+					}
+					roundedOK = true
+				}
+			}
+			if r.Op != e.Op && !roundedOK {
 				issues = append(issues, Issue{Rule: "A-REJ", Construct: "operator for " + e.Kw, Msg: fmt.Sprintf("%s: %s must reject when value %s limit, but the emitted condition `%s` rejects when value %s limit", what, e.Kw, e.Op, r.Cond, r.Op)})
+				if rejectsMore(r.Op, e.Op) {
+					issues = append(issues, Issue{Rule: "A-OVERREJ", Construct: "operator for " + e.Kw, Msg: fmt.Sprintf("%s: the schema rejects only when value %s limit of %s, but `%s` rejects when value %s limit: valid documents are refused", what, e.Op, e.Kw, r.Cond, r.Op)})
+				}
 			}
 			if (r.Len != "") != e.Len {
 				issues = append(issues, Issue{Rule: "A-REJ", Construct: "measure for " + e.Kw, Msg: fmt.Sprintf("%s: %s compares %s, expected a length=%v comparison (`%s`)", what, e.Kw, r.Subject, e.Len, r.Cond)})
@@ -261,8 +283,19 @@ func (fm *FileModel) CompareRejects(w *World, m *skel.Method, field string, exp 
 				Msg: fmt.Sprintf("%s: `%s` discards the error of %s: a pattern Go's regexp cannot compile makes every value fail validation instead of failing generation", what, r.Init, r.Call)})
 		}
 		// lossy transform on the bound
-		if hit.hole != nil {
+		if hit.hole != nil && !roundedOK && !w.decidedIntegral(hit.hole.A) {
 			for _, t := range hit.hole.Tr {
+				if t == "round" || t == "trunc" {
+					issues = append(issues, Issue{Rule: "A-REJ:lossy", Construct: "bound passed through math." + t + " for " + e.Kw, Site: siteOf(hit.hole),
+						Msg: fmt.Sprintf("%s: the limit of %s passes through %s before it is printed: no single operator is exact for every fractional limit", what, e.Kw, t)})
+					break
+				}
+				if strings.HasPrefix(t, "trunc-") && hit.hole.A.Facts["integral"] != "yes" && e.Kind == "cmp" && strings.HasSuffix(e.Op, "=") {
+					// toward zero is upward for a negative limit and downward for a positive one: an exclusive lower bound -2.5 becomes
+					// "-2 >= value", which refuses the admitted -2 (and an exclusive upper bound 2.5 refuses 2)
+					issues = append(issues, Issue{Rule: "A-OVERREJ", Construct: "exclusive bound truncated toward zero for " + e.Kw, Site: siteOf(hit.hole),
+						Msg: fmt.Sprintf("%s: the exclusive fractional limit of %s is converted with %s and compared with %s (`%s`): on the side of zero the truncated limit itself is admitted by the schema but refused by the check", what, e.Kw, strings.TrimPrefix(t, "trunc-"), r.Op, r.Cond)})
+				}
 				if strings.HasPrefix(t, "trunc-") && hit.hole.A.Facts["integral"] != "yes" {
 					issues = append(issues, Issue{Rule: "A-REJ:lossy", Construct: "bound truncated to integer for " + e.Kw, Site: siteOf(hit.hole),
 						Msg: fmt.Sprintf("%s: the limit of %s is converted with %s before it is printed: a fractional limit on an integer is truncated (e.g. exclusiveMaximum 2.5 rejects 2; multipleOf 0.5 becomes %% 0)", what, e.Kw, strings.TrimPrefix(t, "trunc-"))})
@@ -290,6 +323,47 @@ func (fm *FileModel) CompareRejects(w *World, m *skel.Method, field string, exp 
 		}
 	}
 	return issues
+}
+
+// rejectsMore: a check that rejects when "value got limit" refuses values that "value want limit" admits.
+func rejectsMore(got, want string) bool {
+	if got == want || got == "" || want == "" {
+		return false
+	}
+	if got[:1] != want[:1] {
+		return true // other direction
+	}
+	return strings.HasSuffix(got, "=") && !strings.HasSuffix(want, "=")
+}
+
+// decidedIntegral: this world decided that the symbolic number is an integer (every rounding is then the identity).
+func (w *World) decidedIntegral(a *absint.Atom) bool {
+	if a == nil || w == nil {
+		return false
+	}
+	if a.Kind == "PosInt" || a.Facts["integral"] == "yes" {
+		return true
+	}
+	ch, ok := w.Facts[fmt.Sprintf("integral:%d", a.ID)]
+	return ok && ch == 0
+}
+
+// roundingOf: the direction ("ceil"/"floor") in which a fractional limit was rounded before it was printed, "" if it was not
+// rounded, was rounded toward zero or to nearest (no fixed direction), or is an integer in this world. Only the first
+// rounding step counts: every later one sees an integer.
+func (w *World) roundingOf(h *absint.Hole) string {
+	if h == nil || w.decidedIntegral(h.A) {
+		return ""
+	}
+	for _, t := range h.Tr {
+		switch {
+		case t == "ceil" || t == "floor":
+			return t
+		case t == "round" || t == "trunc" || strings.HasPrefix(t, "trunc-"):
+			return ""
+		}
+	}
+	return ""
 }
 
 // sameAtom: the same symbolic value, or two numbers this world decided to be equal.
